@@ -44,6 +44,16 @@ from rtamt.exception.exception import RTAMTException
 
 class LtlAstParserVisitor(LtlParserVisitor):
 
+    def literal_to_float(self, text):
+        # the lexer also accepts hexadecimal and binary integers and digits separated by underscores
+        try:
+            return float(text)
+        except ValueError:
+            try:
+                return float(int(str(text).replace('_', ''), 0))
+            except ValueError:
+                raise RTAMTException('{} is not a number'.format(text))
+
     def visitExprPredicate(self, ctx):
         child1 = self.visit(ctx.expression(0))
         child2 = self.visit(ctx.expression(1))
@@ -59,7 +69,7 @@ class LtlAstParserVisitor(LtlParserVisitor):
         # Identifier is a constant
         if id in self.const_val_dict:
             val = self.const_val_dict[id]
-            node = Constant(float(val))
+            node = Constant(self.literal_to_float(val))
             self.phi_name_to_node_dict[node.name] = node
         # Identifier is either an input variable or a sub-formula
         elif id in self.var_subspec_dict:
@@ -218,7 +228,7 @@ class LtlAstParserVisitor(LtlParserVisitor):
         return node
 
     def visitExprLiteral(self, ctx):
-        val = float(ctx.literal().getText())
+        val = self.literal_to_float(ctx.literal().getText())
         node = Constant(val)
         self.phi_name_to_node_dict[node.name] = node
         return node
